@@ -80,6 +80,11 @@ func checkC25(c *Ctx) (string, []string) {
 		"call inter.SetBetaHDagger(INTER, " + K + "History2HistoryDagger(cell(prior.GetBeta(PRIOR)).History, BLOCK.Header.ParentStateRoot))",
 	})
 
+	// the intermediate history is process-global and survives from block to block: the dagger must be (re)written on
+	// every path of its transition, or the next step appends to the previous block's list
+	if f := fn["STFBetaH2BetaHDagger"]; f != nil {
+		c.Check(mustCallOnEveryPath(f, "SetBetaHDagger"), "C25.dagger", K+"STFBetaH2BetaHDagger · always sets β†", f.Pos(), "every non-error path stores the intermediate history", "a path of STFBetaH2BetaHDagger returns without storing β† (e.g. an early return for an empty history): the stale intermediate history of the previous block is then extended")
+	}
 	c.Rule("C25.new-entry", "the appended entry is (header hash = Blake2b(Encode(block.Header)), state root = zero, reported = MapWorkReportFromEg(block's guarantees), beefy root = super-peak commitment of this block's accumulation outputs); β_B' and β_H' are stored from the same computation", 12)
 	{
 		got := ret("NewItem")
